@@ -11,6 +11,10 @@
 (***************************************************************************)
 EXTENDS TraceBase, F64
 
+\* TRUE: only "does not panic" is judged (C16 drives NaN and infinite arguments through this mechanism;
+\* what the answers must be is the business of C02 / C12)
+CONSTANT PanicOnly
+
 P == INSTANCE Piecewise
 
 \* EvalV!Seek with ends explicit (EvalV.tla states it on the variable)
@@ -45,13 +49,13 @@ TraceBatch ==
            cur == CursorSeq(e.ends, e.xs, 1, << >>) IN
        /\ Judge(P!WellFormed(e.ends), "harness: ill-formed input")
        /\ Judge(~e.panic, "panic")
-       /\ Judge(e.panic \/ (Len(e.segs) = n /\ e.valok /\ \A k \in 1..n : e.args[k] = e.xs[k]), "order-or-argument")
+       /\ Judge(PanicOnly \/ e.panic \/ (Len(e.segs) = n /\ e.valok /\ \A k \in 1..n : e.args[k] = e.xs[k]), "order-or-argument")
        \* (c) lazy: nothing before the first next(), one item per output, one more for the final None
-       /\ Judge(e.panic \/ (e.pre = 0 /\ Len(e.pulls) = n + 1 /\ \A k \in 1..(n + 1) : e.pulls[k] = k), "lazy")
+       /\ Judge(PanicOnly \/ e.panic \/ (e.pre = 0 /\ Len(e.pulls) = n + 1 /\ \A k \in 1..(n + 1) : e.pulls[k] = k), "lazy")
        \* (b) piece = Select at the running maximum, as long as no NaN has been fed
-       /\ Judge(e.panic \/ \A k \in 1..clean : e.segs[k] = P!SelectScan(e.ends, rm[k]), "running-max")
+       /\ Judge(PanicOnly \/ e.panic \/ \A k \in 1..clean : e.segs[k] = P!SelectScan(e.ends, rm[k]), "running-max")
        \* (a) non-decreasing prefix: bit-identical to pointwise evaluation
-       /\ Judge(e.panic \/ \A k \in 1..mono :
+       /\ Judge(PanicOnly \/ e.panic \/ \A k \in 1..mono :
                     (e.segs[k] = P!SelectScan(e.ends, e.xs[k]) /\ e.dsegs[k] = e.segs[k]), "pointwise")
        \* shape: the cursor machine, NaN items included
        /\ Drift(e.panic \/ \A k \in 1..n : e.segs[k] = cur[k], "cursor")
